@@ -152,6 +152,17 @@ func c07Gen(g *fw.GenCtx) []fw.Case {
 			add("pairs", n, "V().both().range(3,10).count()", q.V().Both().Range(3, 10).Count().Statements, 1, -1)
 			add("pairs", n, "V().distinct(_label).both()", q.V().Distinct("_label").Both().Statements, -1, -1)
 		}
+		// numeric aggregations over a field that is now and then text or missing
+		if n >= 999 && !(g.Quick() && n > 2500) {
+			pct := &gripql.Aggregate{Name: "p", Aggregation: &gripql.Aggregate_Percentile{Percentile: &gripql.PercentileAggregation{Field: "y", Percents: []float64{50}}}}
+			hist := &gripql.Aggregate{Name: "h", Aggregation: &gripql.Aggregate_Histogram{Histogram: &gripql.HistogramAggregation{Field: "y", Interval: 5}}}
+			trm := &gripql.Aggregate{Name: "t", Aggregation: &gripql.Aggregate_Term{Term: &gripql.TermAggregation{Field: "y"}}}
+			cntA := &gripql.Aggregate{Name: "c", Aggregation: &gripql.Aggregate_Count{Count: &gripql.CountAggregation{}}}
+			add("cycle", n, "V().aggregate(percentile(y))", q.V().Aggregate([]*gripql.Aggregate{pct}).Statements, 1, -1)
+			add("cycle", n, "V().out().aggregate(percentile(y))", q.V().Out().Aggregate([]*gripql.Aggregate{pct}).Statements, 1, -1)
+			add("cycle", n, "V().out().aggregate(percentile,histogram,term,count over y)", q.V().Out().Aggregate([]*gripql.Aggregate{pct, hist, trm, cntA}).Statements, -1, -1)
+			add("cycle", n, "V().both().aggregate(histogram(y))", q.V().Both().Aggregate([]*gripql.Aggregate{hist}).Statements, -1, -1)
+		}
 		// a satisfied limit behind a step that has thousands of rows left to deliver: the
 		// rows are the first k, the stream closes, and the steps before the limit end too
 		if n == 12000 || (!g.Quick() && n >= 999) {
@@ -173,6 +184,16 @@ func c07Gen(g *fw.GenCtx) []fw.Case {
 			add("cycle", n, fmt.Sprintf("V().out().distinct().outE() cancelled after %d rows", cancelAt), q.V().Out().Distinct().OutE().Statements, -1, cancelAt)
 		}
 	}
+	// clients of a live server that leave in the middle of a large result
+	for _, n := range []int{3000, 20000} {
+		if g.Quick() && n < 20000 {
+			continue
+		}
+		for _, leave := range []int{0, 10} {
+			cases = append(cases, fw.MkCase("server", c07Case{Shape: "star", N: n, Stmts: gq.StmtJSON(q.V("hub").Out().Statements), Name: "V(hub).out()", Expect: -1, Cancel: leave}))
+			cases = append(cases, fw.MkCase("server", c07Case{Shape: "star", N: n, Stmts: gq.StmtJSON(q.V("hub").Distinct("_gid").Out().Statements), Name: "V(hub).distinct(_gid).out()", Expect: -1, Cancel: leave}))
+		}
+	}
 	return cases
 }
 
@@ -191,7 +212,16 @@ func c07Graph(env *c07Env, shape string, n int) gdbi.GraphInterface {
 	var vs []*gdbi.Vertex
 	var es []*gdbi.Edge
 	vtx := func(id string, i int) *gdbi.Vertex {
-		return &gdbi.Vertex{ID: id, Label: "L", Data: map[string]interface{}{"x": float64(i), "l": []interface{}{1.0, 2.0, 3.0}}, Loaded: true}
+		d := map[string]interface{}{"x": float64(i), "l": []interface{}{1.0, 2.0, 3.0}}
+		// y: mostly numbers, now and then text or missing (aggregations must keep draining past those rows)
+		switch i % 50 {
+		case 7:
+			d["y"] = "text"
+		case 9:
+		default:
+			d["y"] = float64(i % 17)
+		}
+		return &gdbi.Vertex{ID: id, Label: "L", Data: d, Loaded: true}
 	}
 	switch shape {
 	case "cycle":
@@ -245,9 +275,109 @@ func engineGoroutines() (int, string) {
 	return cnt, sb.String()
 }
 
+// c07Server: a client of a live server reads a few rows of a large result and goes
+// away; the handler, the pipeline behind it and its temporary store must be released.
+func c07Server(w *fw.Worker, cc c07Case) fw.Result {
+	type srvEnv struct {
+		ls     *gq.LiveServer
+		loaded map[string]bool
+	}
+	env := w.State("c07srv", func() interface{} {
+		ls, err := gq.StartServer(w.NewDir("c07srv"), gq.ServerOpts{NoJobs: true})
+		if err != nil {
+			panic(err)
+		}
+		return &srvEnv{ls: ls, loaded: map[string]bool{}}
+	}).(*srvEnv)
+	ctx := context.Background()
+	name := fmt.Sprintf("star%d", cc.N)
+	if !env.loaded[name] {
+		if _, err := env.ls.E.AddGraph(ctx, &gripql.GraphID{Graph: name}); err != nil {
+			return fw.InconclusiveR("AddGraph: " + err.Error())
+		}
+		gi, err := env.ls.DB.Graph(name)
+		if err != nil {
+			return fw.InconclusiveR("Graph: " + err.Error())
+		}
+		vs := []*gdbi.Vertex{{ID: "hub", Label: "L", Data: map[string]interface{}{"x": 0.0}, Loaded: true}}
+		var es []*gdbi.Edge
+		for i := 0; i < cc.N; i++ {
+			vs = append(vs, &gdbi.Vertex{ID: fmt.Sprintf("s%d", i), Label: "L", Data: map[string]interface{}{"x": float64(i)}, Loaded: true})
+			es = append(es, &gdbi.Edge{ID: fmt.Sprintf("o%d", i), Label: "r", From: "hub", To: fmt.Sprintf("s%d", i), Loaded: true})
+		}
+		for i := 0; i < len(vs); i += 2000 {
+			gi.AddVertex(vs[i:min(i+2000, len(vs))])
+		}
+		for i := 0; i < len(es); i += 2000 {
+			gi.AddEdge(es[i:min(i+2000, len(es))])
+		}
+		env.loaded[name] = true
+	}
+	stmts := gq.StmtsFromJSON(cc.Stmts)
+	detail := map[string]interface{}{"shape": "star over a live server", "n": cc.N, "traversal": cc.Name, "rows_read_before_leaving": cc.Cancel}
+	base, _ := engineGoroutines()
+	workdir := env.ls.Conf.Server.WorkDir
+	before, _ := filepath.Glob(filepath.Join(workdir, "*", "kvTmp*"))
+	before2, _ := filepath.Glob(filepath.Join(workdir, "kvTmp*"))
+	cctx, cancel := context.WithCancel(ctx)
+	st, err := env.ls.Q.Traversal(cctx, &gripql.GraphQuery{Graph: name, Query: stmts})
+	if err != nil {
+		cancel()
+		return fw.InconclusiveR("Traversal: " + err.Error())
+	}
+	rows := 0
+	for rows < cc.Cancel {
+		if _, err := st.Recv(); err != nil {
+			break
+		}
+		rows++
+	}
+	cancel() // the client goes away
+	res := fw.HeldR(true, "")
+	res.Count("rows", int64(rows))
+	res.AddSet("sizes", fmt.Sprint(cc.N))
+	left, stacks := 0, ""
+	for i := 0; i < 600; i++ {
+		left, stacks = engineGoroutines()
+		if left <= base {
+			break
+		}
+		time.Sleep(10 * time.Millisecond)
+	}
+	if left > base {
+		// state, not time: the goroutines that are left are parked and do not move any more
+		time.Sleep(3 * time.Second)
+		left2, stacks2 := engineGoroutines()
+		if left2 > base && stacks2 == stacks {
+			detail["stacks"] = stacks
+			return fw.ViolatedR("leak:server-cancel:"+stepKey(stmts), fmt.Sprintf("%s over a live server, client left after %d rows: %d engine goroutines stay parked behind the abandoned result stream", cc.Name, rows, left2-base), detail)
+		}
+		if left2 > base {
+			return fw.InconclusiveR(fmt.Sprintf("%d engine goroutines still running after the client left", left2-base))
+		}
+	}
+	var after, after2 []string
+	for i := 0; i < 900; i++ { // the store is removed by the pipeline's goroutine right after it ends
+		after, _ = filepath.Glob(filepath.Join(workdir, "*", "kvTmp*"))
+		after2, _ = filepath.Glob(filepath.Join(workdir, "kvTmp*"))
+		if len(after)+len(after2) <= len(before)+len(before2) {
+			break
+		}
+		time.Sleep(10 * time.Millisecond)
+	}
+	if len(after)+len(after2) > len(before)+len(before2) {
+		return fw.ViolatedR("leak:server-cancel:tempdir", fmt.Sprintf("%s over a live server, client left after %d rows: a temporary store stays in the work directory", cc.Name, rows), detail)
+	}
+	res.Count("leak_checks", 1)
+	return res
+}
+
 func c07Exec(w *fw.Worker, c fw.Case) fw.Result {
 	var cc c07Case
 	c.Decode(&cc)
+	if c.Kind == "server" {
+		return c07Server(w, cc)
+	}
 	env := w.State("c07", func() interface{} {
 		db, err := gq.OpenBadger(w.NewDir("c07db"))
 		if err != nil {
@@ -325,7 +455,7 @@ func maxInt(a, b int) int {
 func init() {
 	fw.Register(&fw.Property{
 		ID:   "C07",
-		Rule: "graph shapes with closed-form answers (cycle, star with spokes in both directions, disjoint pairs) at N in {0,1,99,100,101,999,1000,1001,2500,4999,5000,5001,12000} vertices/spokes - several multiples of every internal capacity (100, 1000, 5000); traversals: every single step and every ordered pair of 16 fan-out/fan-in steps (out, in, both, outE, inE, bothE, as..select, unwind on a 3-list, has, fields, distinct, count, aggregate with 1 and 3 aggregations, render, path) after V(), plus limit/range mid-stream and star/pairs traversals, and limit/range right behind a hub with 12000 spokes (the steps before a satisfied limit must end as well); cancellation of the context after 0, 1, 100, 5001 rows while the consumer keeps draining. Quick covers sizes <= 2500 (a rotating sixth of the step pairs) plus the 5001 cases of the fan-out steps; thorough covers everything. Oracle: the result channel closes (a non-closing run is a violation only with a deadlock certificate: every engine goroutine blocked on channel operations, identical in two snapshots), the row count equals the closed form, fewer than 10x the bound rows are streamed, and afterwards no engine goroutine and no kvTmp* directory is left. Non-trivial = N > 0.",
+		Rule: "graph shapes with closed-form answers (cycle, star with spokes in both directions, disjoint pairs) at N in {0,1,99,100,101,999,1000,1001,2500,4999,5000,5001,12000} vertices/spokes - several multiples of every internal capacity (100, 1000, 5000); traversals: every single step and every ordered pair of 16 fan-out/fan-in steps (out, in, both, outE, inE, bothE, as..select, unwind on a 3-list, has, fields, distinct, count, aggregate with 1 and 3 aggregations, render, path) after V(), plus limit/range mid-stream and star/pairs traversals, numeric aggregations over a field that is text or missing in some rows, and limit/range right behind a hub with 12000 spokes (the steps before a satisfied limit must end as well); cancellation of the context after 0, 1, 100, 5001 rows while the consumer keeps draining; a gRPC client of a live server that leaves after 0 / 10 rows of a 20000-row result. Quick covers sizes <= 2500 (a rotating sixth of the step pairs) plus the 5001 cases of the fan-out steps; thorough covers everything. Oracle: the result channel closes (a non-closing run is a violation only with a deadlock certificate: every engine goroutine blocked on channel operations, identical in two snapshots), the row count equals the closed form, fewer than 10x the bound rows are streamed, and afterwards no engine goroutine and no kvTmp* directory is left. Non-trivial = N > 0.",
 		Assumptions: []string{
 			"'always finishes' is restated as bounded progress: closure within the explored sizes; a watchdog firing without a certificate is inconclusive",
 			"'any data volume' is explored up to 12000 rows per step, not beyond",
